@@ -174,6 +174,7 @@ pub fn restore_via(l: &PriceLevel, via: &str, lie: bool, low: bool) -> Result<Pr
         }
         // a package assembled by hand (public fields) around the possibly lying snapshot, with the
         // checksum of exactly that content: it validates, and the aggregates must still be derived
+        "package_forged" | "json_forged" if !forge_possible(l) => Err("forge-unavailable".into()),
         "package_forged" => {
             let p = PriceLevelSnapshotPackage { version: 1, checksum: crate::snap_drv::h_of(&snap), snapshot: snap };
             PriceLevel::from_snapshot_package(p).map_err(e)
@@ -209,6 +210,16 @@ pub fn restore_via(l: &PriceLevel, via: &str, lie: bool, low: bool) -> Result<Pr
             PriceLevel::from_str(&t).map_err(e)
         }
         _ => Err("unknown path".into()),
+    }
+}
+
+/// A package can be forged from outside only by someone who knows how the library stamps its packages.
+/// The harness knows the pinned recipe (SHA-256 of the content JSON); if the library's own packages are no
+/// longer stamped that way the forged paths are not available (reported as model drift, not as a failure).
+fn forge_possible(l: &PriceLevel) -> bool {
+    match PriceLevelSnapshotPackage::new(l.snapshot()) {
+        Ok(p) => p.checksum == crate::snap_drv::h_of(&p.snapshot),
+        Err(_) => false,
     }
 }
 
@@ -431,6 +442,9 @@ fn run_once(sched: &Arc<Sched>, sc: &Value, sc_ix: usize, run_ix: usize, micro: 
                         }
                         Ok(Err(e)) => {
                             line["ok"] = json!(false);
+                            if e == "forge-unavailable" {
+                                line["na"] = json!(true);
+                            }
                             line["err"] = json!(e);
                         }
                         Err(_) => {
